@@ -49,6 +49,25 @@ def template_family():
                             "at": [["fill", "url(#u)", 0], ["fillref", "u", 0]] +
                                   ([["transform", shape_tf, 0]] if shape_tf else [])}
                     docs.append({"vb": [0, 0, 16, 16], "view": [0, 0, 16, 16], "root": [], "nodes": head + [rect]})
+    # chains of three: a -> b -> c, where geometry / units / transform / stops come from different links,
+    # in every document order of the three gradients
+    import itertools
+    geo = [["gradientUnits", "userSpaceOnUse", 0], ["x1", [2, 1, 0], 0], ["y1", [3, 1, 0], 0], ["x2", [12, 1, 0], 0],
+           ["y2", [9, 1, 0], 0], ["gradientTransform", [["translate", 3, 1]], 0], ["spreadMethod", "reflect", 0]]
+    for stops_at in ("b", "c", "bc"):
+        for own in ([], [["x1", [4, 1, 0], 0]]):
+            A = {"d": 1, "tag": "linearGradient", "id": "a", "at": list(own), "g": [], "ref": "b"}
+            B = {"d": 1, "tag": "linearGradient", "id": "b", "at": [["y2", [5, 1, 0], 0]],
+                 "g": stops if "b" in stops_at else [], "ref": "c"}
+            C = {"d": 1, "tag": "linearGradient", "id": "c", "at": list(geo),
+                 "g": [[0, "lime"], [100, "black"]] if "c" in stops_at else [], "ref": ""}
+            for order in itertools.permutations([A, B, C]):
+                for shape_tf in ([], [["translate", 0, 4]]):
+                    rect = {"d": 1, "tag": "rect", "id": "", "g": [2, 2, 11, 9, -1, -1], "ref": "",
+                            "at": [["fill", "url(#a)", 0], ["fillref", "a", 0]] +
+                                  ([["transform", shape_tf, 0]] if shape_tf else [])}
+                    docs.append({"vb": [0, 0, 16, 16], "view": [0, 0, 16, 16], "root": [],
+                                 "nodes": [dict(x) for x in order] + [rect]})
     # focal points and centres given as percentages of a NON-SQUARE viewport (x: of its width, y: of its
     # height), user space units, on transformed and untransformed shapes
     for fx in (None, [25, 1, 1], [10, 1, 0]):
